@@ -31,8 +31,10 @@ import (
 type recWriter struct {
 	mu   sync.Mutex
 	log  []byte
-	mode string // ok fail short-nil short-err
+	mode string // ok fail short-nil short-err fail-once short-err-once
 	n    int
+	// failed counts the Write calls that returned an error
+	failed int
 }
 
 var errWriter = errors.New("injected writer failure")
@@ -41,6 +43,17 @@ func (w *recWriter) Write(p []byte) (int, error) {
 	w.mu.Lock()
 	w.n++
 	mode := w.mode
+	if strings.HasSuffix(mode, "-once") {
+		// a writer that fails a single time (the k-th Write) and works before and after
+		if w.n == 2 {
+			mode = strings.TrimSuffix(mode, "-once")
+		} else {
+			mode = "ok"
+		}
+	}
+	if mode == "fail" || mode == "short-err" {
+		w.failed++
+	}
 	w.mu.Unlock()
 	switch mode {
 	case "fail":
@@ -122,7 +135,7 @@ func c13Writer(run *rt.Run, r *rt.Rand) {
 	for i := 0; i < n && !run.Stop(); i++ {
 		cr := r.Fork()
 		configured := rt.Pick(cr, []string{"", "", "json", "cloudevents-json", "text"})
-		mode := rt.Pick(cr, []string{"ok", "ok", "ok", "fail", "short-nil", "short-err", "nil-writer"})
+		mode := rt.Pick(cr, []string{"ok", "ok", "ok", "fail", "short-nil", "short-err", "nil-writer", "fail-once", "short-err-once"})
 		conc := cr.Range(1, 16)
 		w := &recWriter{mode: mode}
 		sink := &writer.Sink{Format: configured}
@@ -171,15 +184,39 @@ func c13Writer(run *rt.Run, r *rt.Rand) {
 		if mode == "ok" && tear != len(w.log) {
 			run.Violation("history-pattern:interleaved", fmt.Sprintf("the writer's log does not parse into whole records beyond byte %d of %d: concurrent Process calls interleaved their bytes", tear, len(w.log)), wit(""))
 		}
+		once := strings.HasSuffix(mode, "-once")
+		if once {
+			// a single Write failed: the Process call it belongs to reports an error, the others succeed
+			reported := 0
+			for _, c := range calls {
+				if c.err != nil && !c.nilEv && c.present {
+					reported++
+				}
+			}
+			switch {
+			case reported < w.failed:
+				run.Violation("history-pattern:success-without-bytes", fmt.Sprintf("%d Write call(s) of the underlying writer returned an error, yet only %d Process call(s) with a usable event reported one", w.failed, reported), wit(""))
+			case reported > w.failed:
+				run.Violation("history-pattern:spurious-error", fmt.Sprintf("%d Process call(s) with a usable event failed although only %d Write call(s) of the underlying writer did", reported, w.failed), wit(""))
+			}
+		}
 		for _, c := range calls {
-			mustFail := c.nilEv || !c.present || mode != "ok"
+			mustFail := c.nilEv || !c.present || (mode != "ok" && !once)
+			if once && !c.nilEv && c.present {
+				mustFail = c.err != nil // which call met the failing Write is read off the results, judged above
+			}
 			switch {
 			case mustFail && c.err == nil:
 				run.Violation("history-pattern:success-without-bytes", fmt.Sprintf("Process(%s) reported success although the format is missing=%v / event nil=%v / writer=%s", c.id, !c.present, c.nilEv, mode), wit(""))
 			case !mustFail && c.err != nil:
 				run.Violation("history-pattern:spurious-error", fmt.Sprintf("Process(%s) failed (%v) although the configured format is present and the writer works", c.id, c.err), wit(""))
 			}
-			if c.err == nil && !mustFail {
+			if c.err == nil && !mustFail && once {
+				// the log holds the fragment of the failed Write as well: count the whole records themselves
+				if got := bytes.Count(w.log, c.rec); got != 1 {
+					run.Violation("history-pattern:exactly-once", fmt.Sprintf("record %s acknowledged by writer.Sink occurs %d times in the writer's log", c.id, got), wit(""))
+				}
+			} else if c.err == nil && !mustFail {
 				if got := countID(recs, c.id); got != 1 {
 					run.Violation("history-pattern:exactly-once", fmt.Sprintf("record %s acknowledged by writer.Sink occurs %d times in the writer's log", c.id, got), wit(""))
 				} else {
